@@ -411,8 +411,9 @@ func parentMain(fl *evid.Flags) int {
 			"Non-trivial and distinct: reference verdicts for isolated pods contain both allow and deny (fingerprint = hash of " +
 			"the cluster). Even case indices: rules of a fresh manager after one full sync. Odd case indices: a manager with a " +
 			"history - cluster A synced, then 1-3 mutations (" + strings.Join(c16Mutations, ", ") + ") give cluster B, which " +
-			"reaches the manager either as informer events, all delivered (judged right after the handlers and again after a " +
-			"full resync), or as a plain cache change followed by a full resync; same flows, judged against B. A mismatch that " +
+			"reaches the manager either as informer events, all delivered (judged right after the handlers when the transition " +
+			"is exactly one mutation - half of the cases -, only observed there otherwise, and judged again after a full " +
+			"resync), or as a plain cache change followed by a full resync; same flows, judged against B. A mismatch that " +
 			"a fresh manager's rules for B do not have is attributed to the part of the installed state (hook, pod chain, policy " +
 			"chain, set) whose replacement by the fresh manager's repairs the verdict."
 		run.Assume("the strict fakes hold exactly what galaxy installed; hash:net lookup = most specific element decides, nomatch " +
@@ -592,6 +593,9 @@ func parentMain(fl *evid.Flags) int {
 		for _, mu := range c16Mutations {
 			if run.Counter("mutation:"+mu) == 0 {
 				run.Inconclusive("transition mode: mutation never applied: " + mu)
+			}
+			if run.Counter("single_mutation_events:"+mu) == 0 {
+				run.Inconclusive("transition mode: mutation never delivered alone as its event: " + mu)
 			}
 		}
 		for _, c := range []string{"transitions_via_events", "transitions_via_resync", "flows_compared-after-events",
